@@ -162,3 +162,13 @@ Proof.
   intros H. apply from_text_loaded in H as [H|(zo & Ho & Ha)]; [left; exact H|right; subst o].
   exists zo. split; [reflexivity|]. eapply adds_in_zone; eauto. constructor.
 Qed.
+
+(* the same for read_rrsets: the store is untouched, only `last_name` moves *)
+Theorem rrsets_outside_origin_proof c zo s ov n toks :
+  as_name true ov (Some zo) false None = Ok n ->
+  is_subdomain n zo = false ->
+  rrs_line c zo s false (TId ov :: toks) false =
+  Ok (mkrr (Some n) (rr_lttl s) (rr_lttl_known s) (rr_dttl s) (rr_dttl_known s) (rr_store s)).
+Proof.
+  intros Hn Hs. unfold rrs_line. rewrite Hn. cbn [bind]. rewrite Hs. reflexivity.
+Qed.
